@@ -109,7 +109,7 @@ class Run:
         if op == 'acquire':
             lk = getattr(w, 'pending_lock', None)
             return lk.probe() if lk is not None else lock_is_free(detail)
-        return True
+        return True  # incl. 'try_acquire'
 
     def execute(self):
         _CURRENT[0] = self
@@ -182,25 +182,34 @@ class SchedLock:
         self._depth = 0
 
     def probe(self):
-        """may this lock be taken right now? (asked by the scheduler thread while every worker is parked)"""
-        import filelock
-
-        if isinstance(self._real, filelock.BaseFileLock):
-            return lock_is_free(self.path)
-        try:  # some other kind of lock: try it for real from here and give it back
+        """would an acquire of this lock go through right now? Asked by the scheduler thread while every worker is
+        parked, answered by the REAL lock object: it is tried without waiting and given back at once. (A file lock with
+        per-thread state sees the lock file as any other thread / process does; a lock whose state is shared by all
+        threads of the process - re-entrant counter not thread-local - answers yes while another caller holds it,
+        which is exactly its behaviour.)"""
+        try:
             got = self._real.acquire(timeout=0)
-        except Exception:  # noqa
+        except Exception:  # noqa  (filelock.Timeout)
             return False
         if got is False:
             return False
-        self._release_real()
+        try:
+            self._real.release()
+        except Exception as e:  # noqa
+            raise HarnessError(f'probe of lock {self.path} could not be given back: {e}')
         return True
 
-    def _release_real(self):
+    def _release_real(self, force=True):
         try:
-            self._real.release(force=True)
+            self._real.release(force=force)
         except TypeError:
             self._real.release()
+
+    @staticmethod
+    def _non_blocking(a, k):
+        blocking = k.get('blocking', True)
+        timeout = k.get('timeout', a[0] if a else None)
+        return blocking is False or timeout == 0
 
     def acquire(self, *a, **k):
         run = _CURRENT[0]
@@ -209,18 +218,25 @@ class SchedLock:
             self._real.acquire(*a, **k)
             return _Proxy(self)
         if self._depth == 0:
-            w.pending_lock = self
-            try:
-                run.point('acquire', self.path)
-            finally:
-                w.pending_lock = None
-            try:
-                got = self._real.acquire(timeout=0)
-            except Exception as e:  # noqa
-                raise HarnessError(f'scheduler granted lock {self.path} but the real lock refused it: {e}')
-            if got is False:
-                raise HarnessError(f'scheduler granted lock {self.path} but the real lock refused it')
+            if self._non_blocking(a, k):
+                # a try-acquire never waits: always schedulable, the real lock decides (and raises its Timeout)
+                run.point('try_acquire', self.path)
+                self._real.acquire(*a, **k)
+            else:
+                w.pending_lock = self
+                try:
+                    run.point('acquire', self.path)
+                finally:
+                    w.pending_lock = None
+                try:
+                    got = self._real.acquire(timeout=0)
+                except Exception as e:  # noqa
+                    raise HarnessError(f'scheduler granted lock {self.path} but the real lock refused it: {e}')
+                if got is False:
+                    raise HarnessError(f'scheduler granted lock {self.path} but the real lock refused it')
             run.locks[self.path] = w.name
+        else:
+            self._real.acquire(timeout=0)  # re-entrant acquire by the holder: the real lock counts it
         self._depth += 1
         return _Proxy(self)
 
@@ -232,16 +248,18 @@ class SchedLock:
             return
         if self._depth == 0:
             return
+        last = force or self._depth == 1
+        if last and not run.aborting:
+            try:
+                run.point('release', self.path)
+            except _Abort:
+                self._depth = 0
+                self._release_real(True)
+                run.locks.pop(self.path, None)
+                raise
         self._depth = 0 if force else self._depth - 1
+        self._release_real(force)  # what the caller asked for: one level, or everything
         if self._depth == 0:
-            if not run.aborting:
-                try:
-                    run.point('release', self.path)
-                except _Abort:
-                    self._release_real()
-                    run.locks.pop(self.path, None)
-                    raise
-            self._release_real()
             run.locks.pop(self.path, None)
 
     def __enter__(self):
@@ -374,6 +392,19 @@ def _unlink(self, *a, **k):
 
 _real_os_unlink = os.unlink
 _real_os_remove = os.remove
+_real_os_replace = os.replace
+_real_os_rename = os.rename
+
+
+def _mk_os_replace(real, opname):
+    def f(src, dst, *a, **k):
+        run = _CURRENT[0]
+        if run is not None and run.me() is not None and not a and not k:
+            ps, pd = _in_root(run, src), _in_root(run, dst)
+            if ps is not None and pd is not None:
+                run.point(opname, (os.path.relpath(ps, run.root), os.path.relpath(pd, run.root)))
+        return real(src, dst, *a, **k)
+    return f
 
 
 def _os_unlink(path, *a, **k):
@@ -392,8 +423,10 @@ class armed:
         import taskchain.cache as cache
 
         self._saved = (cache.FileLock, io.open, builtins.open, pathlib.Path.exists, pathlib.Path.unlink)
-        self._saved_os = (os.unlink, os.remove)
+        self._saved_os = (os.unlink, os.remove, os.replace, os.rename)
         os.unlink = os.remove = _os_unlink
+        os.replace = _mk_os_replace(_real_os_replace, 'replace')
+        os.rename = _mk_os_replace(_real_os_rename, 'replace')
         _ORIG_LOCK[0] = cache.FileLock
         cache.FileLock = SchedLock
         io.open = _open
@@ -406,7 +439,7 @@ class armed:
         import taskchain.cache as cache
 
         cache.FileLock, io.open, builtins.open, pathlib.Path.exists, pathlib.Path.unlink = self._saved
-        os.unlink, os.remove = self._saved_os
+        os.unlink, os.remove, os.replace, os.rename = self._saved_os
         return False
 
 
